@@ -227,7 +227,7 @@ def numpy_cases(draw, settings=None):
 @st.composite
 def segy_cases(draw, settings=None):
     setting = draw(gen.setting_spelled(settings))
-    shape = draw(gen.shape3d(setting["blockshape"], max_voxels=200_000, max_traces=1500))
+    shape = draw(gen.shape3d(setting["blockshape"], max_voxels=200_000, max_traces=1500, magnitudes="lines"))
     il = draw(gen.line_axis(shape[0]))
     xl = draw(gen.line_axis(shape[1]))
     pre = draw(gen.setting_spelled()) if draw(st.integers(0, 4)) == 0 else None
